@@ -5,7 +5,7 @@ usage: tools/seed_matrix.py [seed_id ...]"""
 import json, os, shutil, subprocess, sys, tempfile, time
 
 HERE = os.path.dirname(os.path.dirname(os.path.abspath(__file__)))
-EXTRA = {'C10-2': ['C12'], 'C06-1': ['C01'], 'C06-2': ['C01', 'C02'], 'C11-1': ['C01', 'C02'], 'C01-1': ['C02'], 'C02-2': ['C01'],
+EXTRA = {'C05-3': ['C03'], 'C10-2': ['C12'], 'C06-1': ['C01'], 'C06-2': ['C01', 'C02'], 'C11-1': ['C01', 'C02'], 'C01-1': ['C02'], 'C02-2': ['C01'],
          'C13-1': ['C03'], 'C03-2': ['C05'], 'C12-2': ['C13']}
 
 
